@@ -248,7 +248,9 @@ def run(res, b, tier, seed):
         if removed:
             fails.append((c, "files removed: %s" % removed, r))
         targets = [c["args"][i + 1] for i in range(len(c["args"]) - 1) if c["args"][i] in ("-t", "--type")]
-        valid = c["kind"] in ("normal", "odd-argument-count", "stale-output-present")
+        # (an odd number of arguments - an option without its value, or a stray word - is a BAD OPTION: genuine defect repaired in round 12,
+        # the trailing argument had been ignored and such invocations had been counted as valid here, copied from the implementation)
+        valid = c["kind"] in ("normal", "stale-output-present")
         if valid:
             okall = all(lib[(c["prog"], t)].startswith("OK") for t in targets)
             base = os.path.basename(name)
